@@ -75,7 +75,7 @@ func (m c08) Run(ctx *core.Ctx) {
 			m.Exec(ctx, cs)
 		}
 	}
-	n := split(tierN(ctx.Tier, 600_000, 60_000_000), ctx.Shard, ctx.NShards)
+	n := split(tierN(ctx.Tier, 2_000_000, 60_000_000), ctx.Shard, ctx.NShards)
 	for i := int64(0); i < n; i++ {
 		scheme := "http"
 		if r.IntN(4) == 0 {
